@@ -32,6 +32,8 @@ func checkC17(ctx *Ctx, r *Report) {
 	c17MovedPairs(ctx, r)
 	c17AssignmentsConserved(ctx, r)
 	c17ExactLookups(ctx, r)
+	c17AppendOnSharedSlice(ctx, r)
+	c17RenameArgumentsCovers(ctx, r)
 	// the copies veneers rely on
 	for _, m := range findCopyMethods(ctx) {
 		if m.pkg.PkgPath == astPkgPath {
@@ -871,4 +873,379 @@ func c17ExactLookups(ctx *Ctx, r *Report) {
 	})
 	r.Count("reference / builder lookups", n)
 	r.Floor("reference / builder lookups", 10)
+}
+
+// c17AppendOnSharedSlice: builders travel by value; a by-value copy shares its slices with the original. Appending to
+// such a slice is harmless for the original (the new element lies beyond its length) but not for a *sibling* copy: two
+// copies of one source that both append write the same slot of the shared backing array whenever it has spare capacity,
+// and the first copy then reads the second one's element. Rule: a function that appends to a slice reached through a
+// by-value copy of (a field of) one of its parameters, without first replacing it by fresh storage, may not be called in
+// a loop with the same argument for that parameter.
+func c17AppendOnSharedSlice(ctx *Ctx, r *Report) {
+	n := 0
+	type hazard struct {
+		fn     *types.Func
+		param  int
+		pname  string
+		pos    token.Pos
+		target string
+	}
+	var hazards []hazard
+	for _, rel := range veneerPkgs {
+		p := ctx.Pkg(rel)
+		if p == nil {
+			continue
+		}
+		info := p.TypesInfo
+		for _, file := range p.Syntax {
+			for _, d := range file.Decls {
+				fd, ok := d.(*ast.FuncDecl)
+				if !ok || fd.Body == nil {
+					continue
+				}
+				fobj, _ := info.Defs[fd.Name].(*types.Func)
+				params := map[types.Object]int{}
+				k := 0
+				for _, f := range fd.Type.Params.List {
+					for _, nm := range f.Names {
+						params[info.Defs[nm]] = k
+						k++
+					}
+				}
+				// shared[X] = list of field-path prefixes of X that are by-value copies of a parameter's storage ("" = whole value)
+				type share struct {
+					prefix string
+					param  types.Object
+					at     token.Pos
+				}
+				shared := map[types.Object][]share{}
+				ast.Inspect(fd.Body, func(m ast.Node) bool {
+					as, ok := m.(*ast.AssignStmt)
+					if !ok || as.Tok != token.DEFINE || len(as.Lhs) != 1 || len(as.Rhs) != 1 {
+						return true
+					}
+					id, ok := as.Lhs[0].(*ast.Ident)
+					if !ok {
+						return true
+					}
+					x := info.Defs[id]
+					switch rhs := ast.Unparen(as.Rhs[0]).(type) {
+					case *ast.Ident:
+						if _, isParam := params[objOf(info, rhs)]; isParam {
+							if _, isStruct := info.TypeOf(rhs).Underlying().(*types.Struct); isStruct {
+								shared[x] = append(shared[x], share{"", objOf(info, rhs), as.Pos()})
+							}
+						}
+					case *ast.CompositeLit:
+						for _, el := range rhs.Elts {
+							kv, ok := el.(*ast.KeyValueExpr)
+							if !ok {
+								continue
+							}
+							key, ok := kv.Key.(*ast.Ident)
+							if !ok {
+								continue
+							}
+							ap := accessPathOf(info, kv.Value)
+							if !ap.ok || len(ap.steps) == 0 {
+								continue
+							}
+							if _, isParam := params[ap.root]; !isParam {
+								continue
+							}
+							if _, isCall := ast.Unparen(kv.Value).(*ast.CallExpr); isCall {
+								continue
+							}
+							if !typeContainsRef(info.TypeOf(kv.Value)) {
+								continue
+							}
+							shared[x] = append(shared[x], share{key.Name, ap.root, kv.Pos()})
+						}
+					}
+					return true
+				})
+				if len(shared) == 0 {
+					continue
+				}
+				// appends through X
+				ast.Inspect(fd.Body, func(m ast.Node) bool {
+					as, ok := m.(*ast.AssignStmt)
+					if !ok || len(as.Lhs) != 1 || len(as.Rhs) != 1 {
+						return true
+					}
+					c, ok := ast.Unparen(as.Rhs[0]).(*ast.CallExpr)
+					if !ok || !isBuiltinCall(info, c, "append") || len(c.Args) == 0 || exprString(c.Args[0]) != exprString(as.Lhs[0]) {
+						return true
+					}
+					ap := accessPathOf(info, as.Lhs[0])
+					if !ap.ok || len(ap.steps) == 0 {
+						return true
+					}
+					shs, ok := shared[ap.root]
+					if !ok {
+						return true
+					}
+					var names []string
+					for _, sp := range ap.steps {
+						if sp.field != nil {
+							names = append(names, sp.field.Name())
+						}
+					}
+					path := strings.Join(names, ".")
+					for _, sh := range shs {
+						if sh.prefix != "" && path != sh.prefix && !strings.HasPrefix(path, sh.prefix+".") {
+							continue
+						}
+						// replaced by fresh storage before? (an earlier plain assignment to the same path or a prefix of it)
+						fresh := false
+						ast.Inspect(fd.Body, func(q ast.Node) bool {
+							a2, ok := q.(*ast.AssignStmt)
+							if !ok || a2.Pos() >= as.Pos() || a2.Pos() <= sh.at || len(a2.Lhs) != 1 || a2 == as {
+								return true
+							}
+							ap2 := accessPathOf(info, a2.Lhs[0])
+							if !ap2.ok || ap2.root != ap.root || len(ap2.steps) == 0 {
+								return true
+							}
+							var n2 []string
+							for _, sp := range ap2.steps {
+								if sp.field != nil {
+									n2 = append(n2, sp.field.Name())
+								}
+							}
+							p2 := strings.Join(n2, ".")
+							if p2 == path || strings.HasPrefix(path, p2+".") {
+								if c2, ok := ast.Unparen(a2.Rhs[0]).(*ast.CallExpr); ok && isBuiltinCall(info, c2, "append") {
+									return true
+								}
+								fresh = true
+							}
+							return true
+						})
+						if fresh {
+							continue
+						}
+						n++
+						hazards = append(hazards, hazard{fobj, params[sh.param], sh.param.Name(), as.Pos(), exprString(as.Lhs[0])})
+					}
+					return true
+				})
+			}
+		}
+	}
+	// call sites in loops with a loop-invariant argument
+	reported := map[string]bool{}
+	for _, h := range hazards {
+		cons := fmt.Sprintf("%s appends to %s (shared with parameter %s)", ctx.FuncName(h.fn), h.target, h.pname)
+		if reported[cons] {
+			continue
+		}
+		reported[cons] = true
+		bad := ""
+		for _, rel := range veneerPkgs {
+			p := ctx.Pkg(rel)
+			if p == nil {
+				continue
+			}
+			info := p.TypesInfo
+			for _, file := range p.Syntax {
+				for _, d := range file.Decls {
+					fd, ok := d.(*ast.FuncDecl)
+					if !ok || fd.Body == nil {
+						continue
+					}
+					parents := parentMap(fd)
+					ast.Inspect(fd.Body, func(m ast.Node) bool {
+						c, ok := m.(*ast.CallExpr)
+						if !ok || callee(info, c) != h.fn || h.param >= len(c.Args) || bad != "" {
+							return true
+						}
+						arg := c.Args[h.param]
+						for _, lp := range enclosingLoops(parents, c) {
+							var body *ast.BlockStmt
+							switch x := lp.(type) {
+							case *ast.RangeStmt:
+								body = x.Body
+							case *ast.ForStmt:
+								body = x.Body
+							}
+							if body == nil {
+								continue
+							}
+							// invariant: the argument's root is declared outside the loop and not assigned in its body
+							ap := accessPathOf(info, arg)
+							if !ap.ok || ap.root == nil {
+								continue
+							}
+							if ap.root.Pos() >= lp.Pos() && ap.root.Pos() <= lp.End() {
+								continue
+							}
+							assigned := false
+							ast.Inspect(body, func(q ast.Node) bool {
+								if a, ok := q.(*ast.AssignStmt); ok {
+									for _, l := range a.Lhs {
+										if id, ok := ast.Unparen(l).(*ast.Ident); ok && objOf(info, id) == ap.root {
+											assigned = true
+										}
+									}
+								}
+								return true
+							})
+							if !assigned {
+								bad = fmt.Sprintf("called at %s in a loop with the same %s on every iteration", ctx.Pos(c.Pos()), exprString(arg))
+							}
+						}
+						return true
+					})
+				}
+			}
+		}
+		r.Check(bad == "", "ownership/append-on-shared-slice", cons, h.pos, "never called twice with the same value for that parameter from a loop",
+			fmt.Sprintf("%s appends to %s, whose backing array it shares with its parameter %s, and is %s: whenever that array has spare capacity every call writes the same slot — the builders produced by earlier iterations end up with the element appended by the last one", ctx.FuncName(h.fn), h.target, h.pname, bad))
+	}
+	r.Count("appends through a by-value copy of a parameter in the veneers", n)
+	r.Floor("appends through a by-value copy of a parameter in the veneers", 2)
+}
+
+// c17RenameArgumentsCovers: an option names its arguments in several places: its own Args, the value of each assignment,
+// the operand of each assignment constraint, the index of an indexed path item, the values of an envelope. The positions
+// are computed from the types (every field of type Argument / *Argument reachable from ast.Option); rename_arguments has
+// to write the new name through each of them, or the generated option refers to a parameter that no longer exists.
+var c17RenameArgExempt = map[string]string{
+	"Option.Args":         "",
+	"Constructor.Args":    "not part of an option",
+	"BuilderFactory.Args": "not part of an option",
+}
+
+func c17RenameArgumentsCovers(ctx *Ctx, r *Report) {
+	optT := ctx.LookupType("internal/ast", "Option")
+	argT := ctx.LookupType("internal/ast", "Argument")
+	p := ctx.Pkg("internal/veneers/option")
+	if optT == nil || argT == nil || p == nil {
+		r.Undecided("anchor lost: ast.Option / ast.Argument / veneers/option")
+		return
+	}
+	// positions: (owner struct, field) whose type is Argument, *Argument or []Argument, reachable from Option
+	type pos struct {
+		owner string
+		field *types.Var
+	}
+	var positions []pos
+	seen := map[*types.Named]bool{}
+	var walk func(t types.Type)
+	walk = func(t types.Type) {
+		switch x := t.(type) {
+		case *types.Pointer:
+			walk(x.Elem())
+		case *types.Slice:
+			walk(x.Elem())
+		case *types.Map:
+			walk(x.Elem())
+		case *types.Named:
+			if seen[x] || x.Obj().Pkg() == nil || x.Obj().Pkg().Path() != astPkgPath || x.Obj().Name() == "Type" {
+				return
+			}
+			seen[x] = true
+			st, ok := x.Underlying().(*types.Struct)
+			if !ok {
+				walk(x.Underlying())
+				return
+			}
+			for i := 0; i < st.NumFields(); i++ {
+				f := st.Field(i)
+				ft := f.Type()
+				for {
+					switch y := ft.(type) {
+					case *types.Pointer:
+						ft = y.Elem()
+						continue
+					case *types.Slice:
+						ft = y.Elem()
+						continue
+					}
+					break
+				}
+				if namedOf(ft) == argT {
+					positions = append(positions, pos{x.Obj().Name(), f})
+				} else {
+					walk(f.Type())
+				}
+			}
+		}
+	}
+	walk(optT)
+	// writes of .Name through each position in RenameArgumentsAction
+	var lit *ast.FuncLit
+	var fobj *types.Func
+	forEachVeneerClosure(ctx, func(pp *packages.Package, fd *ast.FuncDecl, fo *types.Func, l *ast.FuncLit) {
+		if fd.Name.Name == "RenameArgumentsAction" && lit == nil {
+			lit, fobj = l, fo
+		}
+	})
+	if lit == nil {
+		r.Undecided("anchor lost: option.RenameArgumentsAction")
+		return
+	}
+	info := p.TypesInfo
+	written := map[*types.Var]bool{}
+	// the literal and the helpers of the package it calls (two levels)
+	bodies := []ast.Node{lit.Body}
+	seenFn := map[*types.Func]bool{}
+	for depth := 0; depth < 2; depth++ {
+		for _, b := range append([]ast.Node{}, bodies...) {
+			ast.Inspect(b, func(m ast.Node) bool {
+				if c, ok := m.(*ast.CallExpr); ok {
+					if fn := callee(info, c); fn != nil && fn.Pkg() == p.Types && !seenFn[fn] {
+						seenFn[fn] = true
+						if hfd, _ := ctx.DeclOf(fn); hfd != nil && hfd.Body != nil {
+							bodies = append(bodies, hfd.Body)
+						}
+					}
+				}
+				return true
+			})
+		}
+	}
+	for _, b := range bodies {
+		collectNameWrites(info, b, written)
+	}
+	n := 0
+	for _, ps := range positions {
+		key := ps.owner + "." + ps.field.Name()
+		n++
+		cons := fmt.Sprintf("%s renames %s", ctx.FuncName(fobj), key)
+		if why, ok := c17RenameArgExempt[key]; ok && why != "" {
+			r.OK("effects/rename-arguments-covers", cons, ps.field.Pos(), "reviewed: "+why)
+			continue
+		}
+		r.Check(written[ps.field], "effects/rename-arguments-covers", cons, ps.field.Pos(), "the new name is written through this position",
+			fmt.Sprintf("an option names its arguments in %s too, and rename_arguments never writes a name there: after the rename that position still carries the old name — the generated option refers to a parameter that does not exist (Python: NameError on every call)", key))
+	}
+	r.Count("positions of an option that name an argument", n)
+	r.Floor("positions of an option that name an argument", 3)
+}
+
+func collectNameWrites(info *types.Info, body ast.Node, written map[*types.Var]bool) {
+	ast.Inspect(body, func(m ast.Node) bool {
+		as, ok := m.(*ast.AssignStmt)
+		if !ok {
+			return true
+		}
+		for _, l := range as.Lhs {
+			sel, ok := ast.Unparen(l).(*ast.SelectorExpr)
+			if !ok || sel.Sel.Name != "Name" {
+				continue
+			}
+			ap := accessPathOf(info, sel.X)
+			if !ap.ok {
+				continue
+			}
+			for _, sp := range ap.steps {
+				if sp.field != nil {
+					written[sp.field] = true
+				}
+			}
+		}
+		return true
+	})
 }
